@@ -334,3 +334,17 @@ func (s *Sample) Add(v any) {
 		s.Items = append(s.Items, v)
 	}
 }
+
+// ReadJSON reads a JSON file into v (engine error on failure).
+func ReadJSON(path string, v any) {
+	b, err := os.ReadFile(path)
+	if err != nil {
+		EngineError("%v", err)
+	}
+	if err := json.Unmarshal(b, v); err != nil {
+		EngineError("%v", err)
+	}
+}
+
+// Exit terminates the process with the given code.
+func Exit(code int) { os.Exit(code) }
